@@ -151,6 +151,12 @@ def run(R):
         raise AnalysisError('InterestPacketValue.encode: signature / digest steps not found')
     if not en.cfg.dominates(cs[0], dg[0]):
         probs.append(('the parameters digest is computed before the signature value is filled in', dg[0].ast))
+    # the shrink amount is produced by calculate_signature: it may only be read afterwards (a read hoisted above it sees the reserved size)
+    shr = [n for (n, c) in calls_in_ctx(en, attr='get_arg') if ast.unparse(c.func.value).endswith('_shrink_len')]
+    for n_ in shr:
+        if not en.cfg.dominates(cs[0], n_):
+            probs.append(('the signature shrink amount is read before the signature has been computed (it is still 0 then): the digest range keeps the '
+                          'unused reserved bytes of a shorter signature', n_.ast))
     # everything below is compared on fully inlined text (temporaries do not matter)
     upd = [c for (n, c) in calls_in_ctx(en, attr='update')]
     loops = [n for n in en.cfg.nodes if n.kind == 'for' and any(c in [x for x in ast.walk(n.ast)] for c in upd)]
